@@ -36,6 +36,7 @@ fn simulate_run(seed: u64, run: u64, stats: &mut Stats, crosscheck: bool) -> (Sc
         collect_samples: run < 4,
         lean: false,
         run,
+        process_offset: clock::process_offset(),
     };
     let mut log = Fnv::new();
     log.write_i64(secs);
@@ -130,6 +131,7 @@ fn replay(path: &str, expect_class: Option<&str>) -> i32 {
         collect_samples: false,
         lean: false,
         run: u64::MAX,
+            process_offset: crate::clock::process_offset(),
     };
     let (viol, hash) = exec::run_script(&script, &mut st, &opts);
     println!("replay {}: {} events, log hash {:016x}", path, script.events.len(), hash);
@@ -170,16 +172,27 @@ fn prime() {
     clock::uninstall();
 }
 
-/// Is chrono::Local::now() over the interposed clock_gettime usable for the
-/// seam-fidelity cross-check (needs TZ=UTC0 in the environment)?
-fn crosscheck_available() -> bool {
+/// Probes the unhooked path: chrono::Local::now() over the interposed
+/// clock_gettime. Returns the UTC offset of the process time zone if the path
+/// works (the seam-fidelity cross-check needs it), None otherwise.
+fn probe_process_offset() -> Option<i32> {
     let clk: SharedClock = Rc::new(RefCell::new(SimClock::new(1_700_000_000, 123_000_000, 0)));
     clk.borrow_mut().stall_reads = u32::MAX;
     clock::install(&clk, false);
     let got = sqldatetime::Timestamp::now().map(|t| t.usecs());
     let reads = clk.borrow().readings.len();
     clock::uninstall();
-    got == Ok(1_700_000_000_123_000) && reads >= 1
+    match got {
+        Ok(us) if reads >= 1 && (us - 1_700_000_000_123_000) % 1_000_000 == 0 => {
+            let off = (us - 1_700_000_000_123_000) / 1_000_000;
+            if off.abs() <= 86_400 {
+                Some(off as i32)
+            } else {
+                None
+            }
+        }
+        _ => None,
+    }
 }
 
 fn main() {
@@ -249,6 +262,8 @@ fn main() {
     // clock-reading calls under a fixed clock. Whatever state the library keeps
     // from its first use is thereby the same in workers and in replays.
     prime();
+    let probed = probe_process_offset();
+    clock::set_process_offset(probed.unwrap_or(0));
     if let Some(f) = replay_file {
         std::process::exit(replay(&f, expect_class.as_deref()));
     }
@@ -260,7 +275,7 @@ fn main() {
     let seed = simcore::seed_from_env();
     let t0 = simcore::real_monotonic_s();
     let workers = pool::default_workers();
-    let crosscheck = crosscheck_available();
+    let crosscheck = probed.is_some();
     let stride: u64 = stride_override.unwrap_or(if thorough { 1 } else { 13 });
     let battery = sweep::battery();
     let total_days = (DATE_MAX_DAYS - DATE_MIN_DAYS + 1) as u64;
@@ -303,7 +318,7 @@ fn main() {
 
     println!("C18 simulation: VERIF_SEED={seed} tier={tier}");
     if !crosscheck {
-        println!("note: seam-fidelity cross-check disabled (TZ is not UTC or clock_gettime is not interposed)");
+        println!("note: seam-fidelity cross-check disabled (chrono::Local::now() over the interposed clock_gettime did not return simulator time)");
     }
     use simcore::pool::Merge;
     let mut phase_errors: Vec<String> = Vec::new();
@@ -405,6 +420,7 @@ fn main() {
             collect_samples: false,
             lean: false,
             run: u64::MAX,
+            process_offset: crate::clock::process_offset(),
         };
         let (v_min, _) = exec::run_script(&min, &mut st, &opts);
         let final_v = match v_min {
@@ -510,7 +526,7 @@ fn main() {
             "seam_fidelity_crosscheck_enabled": crosscheck,
             "relaxed_checks": total.relaxed,
             "unmodelled_skipped": total.unmodelled,
-            "skipped_unhooked_read_before_1970": total.skipped_unrepresentable,
+            "skipped_unhooked_read_not_comparable": total.skipped_unrepresentable,
             "readings_per_call_histogram": {"0": total.readings_hist[0], "1": total.readings_hist[1], "2": total.readings_hist[2], "3+": total.readings_hist[3]},
             "outcomes": {"ok": total.outcome_ok, "err": total.outcome_err},
             "ops_by_type": total.by_type,
